@@ -42,6 +42,8 @@ CONSTANTS
                  \* listed path classified) before the first delete
   FixInterrupt,  \* TRUE: model the repaired commit(): an interrupted commit keeps its files (outcome unknown)
   FaultKinds,    \* subset of {"before", "after", "async"} injected when model checking
+  DamageKinds,   \* subset of {"missing","garbage","dangling","stale"}: pointer damage injected (when nothing is in flight) when model checking
+  CrashOK,       \* TRUE: a committer may die at any step (uses the fault budget)
   FaultBudget,   \* number of injected storage faults when model checking
   Grace,         \* collector grace period used when an operation does not name one (logical ms)
   OldFiles,      \* TRUE: data files written by transactions are already older than any grace period
@@ -262,6 +264,10 @@ DamageHint(cls, name) ==
   /\ cls # "name" => name = NoName
   /\ hint' = [cls |-> cls, name |-> name]
   /\ UNCHANGED <<metas, metaTime, lists, mans, present, ftime, markers, mtimeM, clock, lockHolder, rlock, actorVars, faults, lease, ghostVars>>
+
+DamageHintB(cls, name) ==
+  /\ hint' = [cls |-> cls, name |-> name]
+  /\ UNCHANGED <<metas, metaTime, lists, mans, present, ftime, markers, mtimeM, clock, lockHolder, rlock, actorVars, lease, ghostVars>>
 
 (***************************************************************************)
 (* Committer.                                                              *)
@@ -501,7 +507,7 @@ StampUpdate(a, t) ==
 ReadVersion(a, name) ==
   /\ pc[a] = "c_readver"
   /\ IF Backend = "s3cas" /\ hint.cls = "name" THEN name = hint.name ELSE CanResolve(name)
-  /\ LET stale == FixEtag /\ Backend = "s3cas" /\ name # loc[a].valName IN
+  /\ LET stale == FixEtag /\ Backend = "s3cas" /\ name # loc[a].valName /\ name \in DOMAIN metas IN
      /\ loc' = [loc EXCEPT ![a].prevName = name, ![a].nextVer = (IF name = NoName THEN 1 ELSE name.v + 1),
                            ![a].etagName = (IF hint.cls = "name" THEN hint.name ELSE NoName),
                            ![a].draft = AppendMlog(loc[a].draft, name),
@@ -521,11 +527,29 @@ WriteMeta(a, name) ==
 
 MyMetaName(a) == [v |-> loc[a].nextVer, u |-> loc[a].target]
 
+\* a commit that wrote its metadata file and then failed CLEANLY (the pointer certainly did not move):
+\* repaired code removes the file, so that recovery by scanning can never surface it
+AfterCleanFail == IF FixOrphanMeta THEN "c_discard" ELSE "c_unlock"
+
+DiscardMeta(a) ==
+  /\ pc[a] = "c_discard"
+  /\ LET me == MyMetaName(a) IN
+     /\ metas' = [n \in DOMAIN metas \ {me} |-> metas[n]]
+     /\ metaTime' = [n \in DOMAIN metaTime \ {me} |-> metaTime[n]]
+  /\ pc' = [pc EXCEPT ![a] = "c_unlock"]
+  /\ UNCHANGED <<hint, lists, mans, present, ftime, markers, mtimeM, clock, lockHolder, rlock, opi, att, loc, faults, lease, ghostVars>>
+
+\* (the removal is best effort: a failure to remove it is swallowed)
+DiscardMetaFails(a) ==
+  /\ pc[a] = "c_discard"
+  /\ pc' = [pc EXCEPT ![a] = "c_unlock"]
+  /\ UNCHANGED <<storageVars, clock, lockHolder, rlock, opi, att, loc, faults, lease, ghostVars>>
+
 \* fencing: is_held() (metadata_manager.py:224)
 Fence(a) ==
   /\ pc[a] = "c_fence"
   /\ LET held == LockKind = "none" \/ lockHolder = a IN
-     /\ pc' = [pc EXCEPT ![a] = IF held THEN "c_flip" ELSE "c_unlock"]
+     /\ pc' = [pc EXCEPT ![a] = IF held THEN "c_flip" ELSE AfterCleanFail]
      /\ loc' = [loc EXCEPT ![a].after = IF held THEN "none" ELSE "cme"]
   /\ UNCHANGED <<storageVars, clock, lockHolder, rlock, opi, att, faults, lease, ghostVars>>
 
@@ -555,7 +579,7 @@ FlipHint(a) ==
                                   \/ (hint.cls # "name" /\ loc[a].etagName = NoName)
      IN IF casOK
         THEN /\ hint' = [cls |-> "name", name |-> me]
-             /\ commitLog' = Append(commitLog, [a |-> a, i |-> opi[a], name |-> me, op |-> OpKind(a), replaced |-> hint.name, validated |-> loc[a].valName, lost |-> a \in lease.lost])
+             /\ commitLog' = Append(commitLog, [a |-> a, i |-> opi[a], name |-> me, op |-> OpKind(a), replaced |-> HintedName, validated |-> loc[a].valName, lost |-> a \in lease.lost])
              /\ serial' = SerialApply(serial, a, loc[a].sid)
              /\ tsOf' = IF IsFileOp(a)
                         THEN (loc[a].sid :> [ts |-> loc[a].ts, files |-> (serial.files \cup SeqToSet(AppendFiles(a))) \ DeleteFiles(a)]) @@ tsOf
@@ -563,7 +587,7 @@ FlipHint(a) ==
              /\ sidOfOp' = IF IsFileOp(a) THEN (<<a, opi[a]>> :> loc[a].sid) @@ sidOfOp ELSE sidOfOp
              /\ pc' = [pc EXCEPT ![a] = "c_unlock"]
              /\ loc' = [loc EXCEPT ![a].after = IF OpKind(a) = "delsnap" THEN "c_cleanup" ELSE "c_finish"]
-        ELSE /\ pc' = [pc EXCEPT ![a] = "c_unlock"]
+        ELSE /\ pc' = [pc EXCEPT ![a] = AfterCleanFail]
              /\ loc' = [loc EXCEPT ![a].after = "cme"]
              /\ UNCHANGED <<hint, commitLog, serial, tsOf, sidOfOp>>
   /\ UNCHANGED <<metas, metaTime, lists, mans, present, ftime, markers, mtimeM, clock, lockHolder, rlock, opi, att, faults, lease, outcomes, reads, deleted, initBody, joined>>
@@ -686,6 +710,7 @@ Fault(a, kind) ==
   /\ kind \in {"before", "after", "async"}
   /\ kind = "after" => (pc[a] = "c_flip" /\ Backend # "local")
   /\ OpKind(a) # "delsnap" \/ pc[a] \notin BodyPcs
+  /\ OpKind(a) # "create"
   /\ LET p == pc[a] IN
      \/ /\ p \in BodyPcs
         /\ pc' = [pc EXCEPT ![a] = IF RollsBack(a, kind, FALSE) THEN "rollback" ELSE "raise_keep"]
@@ -696,13 +721,13 @@ Fault(a, kind) ==
         /\ loc' = [loc EXCEPT ![a].err = ErrOf(kind)]
         /\ UNCHANGED <<hint, commitLog, serial, tsOf, sidOfOp>>
      \/ /\ p \in LockedPcs
-        /\ pc' = [pc EXCEPT ![a] = "c_unlock"]
+        /\ pc' = [pc EXCEPT ![a] = IF p = "c_fence" /\ kind = "before" THEN AfterCleanFail ELSE "c_unlock"]
         /\ loc' = [loc EXCEPT ![a].err = ErrOf(kind),
                               ![a].after = IF OpKind(a) # "delsnap" /\ RollsBack(a, kind, TRUE) THEN "rollback" ELSE "raise_keep"]
         /\ UNCHANGED <<hint, commitLog, serial, tsOf, sidOfOp>>
      \/ /\ p = "c_flip" /\ kind \in {"before", "async"}
         \* local: a failed pointer write is guaranteed invisible (clean failure); object storage: ambiguous, keep files
-        /\ pc' = [pc EXCEPT ![a] = "c_unlock"]
+        /\ pc' = [pc EXCEPT ![a] = IF kind = "before" /\ Backend = "local" THEN AfterCleanFail ELSE "c_unlock"]
         /\ LET amb == kind = "before" /\ Backend # "local" IN
            loc' = [loc EXCEPT ![a].err = IF amb THEN "ambiguous" ELSE ErrOf(kind),
                               ![a].after = IF amb THEN "raise_keep"
@@ -711,7 +736,7 @@ Fault(a, kind) ==
      \/ /\ p = "c_flip" /\ kind = "after"
         \* the PUT landed, the client saw an error: AmbiguousCommitError, nothing is deleted
         /\ hint' = [cls |-> "name", name |-> MyMetaName(a)]
-        /\ commitLog' = Append(commitLog, [a |-> a, i |-> opi[a], name |-> MyMetaName(a), op |-> OpKind(a), replaced |-> hint.name, validated |-> loc[a].valName, lost |-> a \in lease.lost])
+        /\ commitLog' = Append(commitLog, [a |-> a, i |-> opi[a], name |-> MyMetaName(a), op |-> OpKind(a), replaced |-> HintedName, validated |-> loc[a].valName, lost |-> a \in lease.lost])
         /\ serial' = SerialApply(serial, a, loc[a].sid)
         /\ tsOf' = IF IsFileOp(a)
                    THEN (loc[a].sid :> [ts |-> loc[a].ts, files |-> (serial.files \cup SeqToSet(AppendFiles(a))) \ DeleteFiles(a)]) @@ tsOf
@@ -733,6 +758,29 @@ Fault(a, kind) ==
         /\ loc' = [loc EXCEPT ![a].err = "interrupted"]
         /\ UNCHANGED <<hint, commitLog, serial, tsOf, sidOfOp>>
   /\ UNCHANGED <<metas, metaTime, lists, mans, present, ftime, markers, mtimeM, clock, lockHolder, rlock, opi, att, lease, outcomes, reads, deleted, initBody, joined>>
+
+\* second half of Fault(a, "after") at the pointer write, for executions that log the landed request and the error
+\* the client saw as two events:  FlipHint(a) \cdot AmbiguousAfterFlip(a)  =  Fault(a, "after") at c_flip
+AmbiguousAfterFlip(a) ==
+  /\ Role[a] = "committer"
+  /\ pc[a] = "c_unlock"
+  /\ loc[a].after \in {"c_finish", "c_cleanup"}
+  /\ Backend # "local"
+  /\ faults > 0
+  /\ faults' = faults - 1
+  /\ loc' = [loc EXCEPT ![a].err = "ambiguous", ![a].after = "raise_keep"]
+  /\ UNCHANGED <<storageVars, clock, lockHolder, rlock, pc, opi, att, lease, ghostVars>>
+
+\* the committing process dies (kill -9): nothing of its further program happens; a flock is released by the kernel
+Crash(a) ==
+  /\ Role[a] = "committer"
+  /\ pc[a] \notin {"idle", "dead"}
+  /\ faults > 0
+  /\ faults' = faults - 1
+  /\ pc' = [pc EXCEPT ![a] = "dead"]
+  /\ lockHolder' = IF lockHolder = a /\ Backend = "local" THEN "none" ELSE lockHolder
+  /\ rlock' = [rlock EXCEPT ![Handle[a]] = IF @ = a THEN "none" ELSE @]
+  /\ UNCHANGED <<storageVars, clock, opi, att, loc, lease, ghostVars>>
 
 \* best-effort steps whose failure is swallowed: a marker that could not be removed stays
 SkipMarker(a, f) ==
@@ -814,7 +862,7 @@ KWriteHint(a) ==
   /\ IF Backend # "s3cas" \/ hint.cls = "missing"
      THEN /\ hint' = [cls |-> "name", name |-> MyMetaName(a)]
           /\ commitLog' = Append(commitLog, [a |-> a, i |-> opi[a], name |-> MyMetaName(a), op |-> "create",
-                                              replaced |-> hint.name, validated |-> NoName, lost |-> FALSE])
+                                              replaced |-> HintedName, validated |-> NoName, lost |-> FALSE])
      ELSE UNCHANGED <<hint, commitLog>>          \* lost the creation race: TableExistsError, adopt
   /\ pc' = [pc EXCEPT ![a] = "k_unlock"]
   /\ UNCHANGED <<metas, metaTime, lists, mans, present, ftime, markers, mtimeM, clock, lockHolder, rlock, opi, att, loc, faults, lease,
@@ -829,7 +877,7 @@ KDUnlock(a) ==
 KTUnlock(a) ==
   /\ pc[a] = "k_tunlock"
   /\ rlock' = [rlock EXCEPT ![Handle[a]] = "none"]
-  /\ pc' = [pc EXCEPT ![a] = "k_done"]
+  /\ pc' = [pc EXCEPT ![a] = IF loc[a].err = "none" THEN "k_done" ELSE "k_failed"]
   /\ UNCHANGED <<storageVars, clock, lockHolder, opi, att, loc, faults, lease, ghostVars>>
 
 \* the constructor returns: the caller is on whatever table is resolvable now
@@ -841,7 +889,25 @@ KReturn(a) ==
   /\ opi' = [opi EXCEPT ![a] = @ + 1]
   /\ UNCHANGED <<storageVars, clock, lockHolder, rlock, att, loc, faults, lease, commitLog, serial, tsOf, sidOfOp, reads, deleted, initBody>>
 
+\* a storage call of create/open fails: the constructor raises (after releasing the locks it holds)
+KFault(a) ==
+  /\ Role[a] = "committer"
+  /\ pc[a] \in {"k_open", "k_check", "k_stamp", "k_wmeta", "k_whint"}
+  /\ faults > 0
+  /\ faults' = faults - 1
+  /\ loc' = [loc EXCEPT ![a].err = "error"]
+  /\ pc' = [pc EXCEPT ![a] = IF pc[a] = "k_open" THEN "k_failed" ELSE "k_unlock"]
+  /\ UNCHANGED <<storageVars, clock, lockHolder, rlock, opi, att, lease, ghostVars>>
+
+KReturnErr(a) ==
+  /\ pc[a] = "k_failed"
+  /\ outcomes' = [outcomes EXCEPT ![a] = Append(@, "error")]
+  /\ pc' = [pc EXCEPT ![a] = "idle"]
+  /\ opi' = [opi EXCEPT ![a] = @ + 1]
+  /\ UNCHANGED <<storageVars, clock, lockHolder, rlock, att, loc, faults, lease, commitLog, serial, tsOf, sidOfOp, reads, deleted, initBody, joined>>
+
 CreateNext(a) ==
+  \/ KFault(a) \/ KReturnErr(a)
   \/ \E n \in DOMAIN metas \cup {NoName} : KOpen(a, n) \/ KCheck(a, n)
   \/ KTLock(a) \/ KDLock(a) \/ KStamp(a, NowVal)
   \/ KWriteMeta(a, [v |-> 0, u |-> Idx[a] * 1000 + opi[a] * 100], 10 + Idx[a])
@@ -1216,7 +1282,7 @@ CommitterNext(a) ==
   \/ Fence(a) \/ FlipHint(a) \/ DUnlock(a) \/ TUnlock(a) \/ Backoff(a)
   \/ \E f \in loc[a].marks : DeleteMarker(a, f) \/ RollbackDeleteMarker(a, f)
   \/ \E f \in SeqToSet(loc[a].files) : RollbackDeleteData(a, f)
-  \/ ReturnOk(a) \/ ReturnErr(a) \/ Finish(a) \/ Heartbeat(a)
+  \/ ReturnOk(a) \/ ReturnErr(a) \/ Finish(a) \/ Heartbeat(a) \/ DiscardMeta(a)
   \/ CreateNext(a)
   \/ \E k \in FaultKinds : Fault(a, k)
   \/ \E f \in loc[a].marks : SkipMarker(a, f)
@@ -1229,7 +1295,19 @@ ReaderNext(a) ==
   \/ \E f \in loc[a].rfiles : RReadData(a, f)
   \/ RReturn(a)
 
+OlderCommitted == {commitLog[k].name : k \in 1..(Len(commitLog) - 1)} \cup (IF Len(commitLog) > 0 /\ InitTable # "absent" THEN {InitName(InitSnaps)} ELSE {})
+DamageNext ==
+  /\ faults > 0
+  /\ faults' = faults - 1
+  /\ \A a \in Actors : pc[a] \in {"idle", "dead"}
+  /\ \E k \in DamageKinds :
+       \/ k \in {"missing", "garbage"} /\ hint.cls # k /\ DamageHintB(k, NoName)
+       \/ k = "dangling" /\ DamageHintB("name", [v |-> 99, u |-> 99])
+       \/ k = "stale" /\ \E n \in OlderCommitted : DamageHintB("name", n)
+
 Next ==
+  \/ DamageNext
+  \/ CrashOK /\ \E a \in Committers : Crash(a)
   \/ \E a \in Committers : CommitterNext(a)
   \/ \E a \in Readers : ReaderNext(a)
   \/ \E a \in Collectors : CollectorNext(a)
@@ -1257,7 +1335,7 @@ Observed ==
 \* version becomes visible when its FILE is written, i.e. between WriteMeta and FlipHint of a commit in
 \* flight; in that window (only) the comparison is suspended.  A version left behind by a commit that
 \* FAILED is not exempt: it must not be what the table resolves to (C10).
-CommitInFlight == \E a \in Actors : pc[a] \in {"c_fence", "c_flip", "k_whint"}
+CommitInFlight == \E a \in Actors : pc[a] \in {"c_fence", "c_flip", "k_whint", "c_discard"}
 Serializable == (HintedName # NoName \/ ~CommitInFlight) => Observed = serial
 
 \* C01: the retained chain is linear with strictly increasing sequence numbers <= lastSeq
